@@ -493,3 +493,77 @@ theorem mRun_snoc (v : Variant) (c : MCfg) (ops : List Op) (op : Op) :
   simp [mRun, List.foldl_append]
 
 end PV.Prep
+
+namespace PV.Prep
+
+/-! ## `pre_multisetup` with its exceptions -/
+
+
+theorem removeRefs_ok_eq (mov : List Nat) (r : List Nat) (m : List Nat) (h : removeRefs mov r = .ok m) :
+    m = r.foldl (fun l x => l.erase x) mov := by
+  induction r generalizing mov with
+  | nil => simp only [removeRefs, Except.ok.injEq] at h; simpa using h.symm
+  | cons x r ih =>
+    simp only [removeRefs] at h
+    by_cases hx : x ∈ mov
+    · rw [if_pos hx] at h; rw [List.foldl_cons]; exact ih _ h
+    · rw [if_neg hx] at h; cases h
+
+/-- the removals succeed exactly for a duplicate-free list of entries of `mov`. -/
+theorem removeRefs_ok_iff (mov : List Nat) (hm : mov.Nodup) (r : List Nat) :
+    (∃ m, removeRefs mov r = .ok m) ↔ r.Nodup ∧ ∀ x ∈ r, x ∈ mov := by
+  induction r generalizing mov with
+  | nil => simp [removeRefs]
+  | cons x r ih =>
+    simp only [removeRefs]
+    by_cases hx : x ∈ mov
+    · rw [if_pos hx, ih _ (hm.erase x), List.nodup_cons]
+      constructor
+      · rintro ⟨hn, hall⟩
+        refine ⟨⟨fun hxr => ?_, hn⟩, ?_⟩
+        · exact ((hm.mem_erase_iff).mp (hall x hxr)).1 rfl
+        · intro y hy
+          rcases List.mem_cons.mp hy with rfl | hy
+          · exact hx
+          · exact ((hm.mem_erase_iff).mp (hall y hy)).2
+      · rintro ⟨⟨hxr, hn⟩, hall⟩
+        refine ⟨hn, fun y hy => (hm.mem_erase_iff).mpr ⟨?_, hall y (List.mem_cons_of_mem _ hy)⟩⟩
+        rintro rfl; exact hxr hy
+    · rw [if_neg hx]
+      constructor
+      · rintro ⟨m, hm'⟩; cases hm'
+      · rintro ⟨_, hall⟩; exact absurd (hall x (List.mem_cons_self ..)) hx
+
+/-- when the constructor's `pre_multisetup` does not raise and there is one reference list per dataset, its result
+    is the total `preMultisetup` the state machines (and all C14 theorems) use. -/
+theorem preMultisetupChecked_eq (nch : Nat → Nat) (ds : List Term) (rs : List (List Nat)) (Y : List Split)
+    (h : preMultisetupChecked nch ds rs = .ok Y) (hl : rs.length = ds.length) : Y = preMultisetup nch ds rs := by
+  induction ds generalizing rs Y with
+  | nil =>
+    cases rs with
+    | nil => simp only [preMultisetupChecked, Except.ok.injEq] at h; subst h; rfl
+    | cons r rs => simp at hl
+  | cons y ys ih =>
+    cases rs with
+    | nil => simp at hl
+    | cons r rs =>
+      simp only [preMultisetupChecked, bind, Except.bind] at h
+      cases hr : removeRefs (List.range (y.ncols nch)) r with
+      | error e => rw [hr] at h; cases h
+      | ok mov =>
+        rw [hr] at h
+        simp only at h
+        by_cases hc : r = [] ∨ mov = []
+        · rw [if_pos hc] at h; cases h
+        · rw [if_neg hc] at h
+          cases hrest : preMultisetupChecked nch ys rs with
+          | error e => rw [hrest] at h; cases h
+          | ok rest =>
+            rw [hrest] at h
+            simp only [pure, Except.pure, Except.ok.injEq] at h
+            subst h
+            have := ih rs rest hrest (by simpa using hl)
+            rw [this, removeRefs_ok_eq _ _ _ hr]
+            rfl
+
+end PV.Prep
